@@ -219,12 +219,73 @@ func bvbin(op string, a, b T) T {
 	if a.Sort != b.Sort {
 		panic(fmt.Sprintf("bvbin %s: sort mismatch %s:%s vs %s:%s", op, a.S, a.Sort, b.S, b.Sort))
 	}
+	if va, ok := constVal(a); ok && a.W() <= 64 {
+		if vb, ok2 := constVal(b); ok2 {
+			switch op {
+			case "bvadd":
+				return lit(a.W(), va+vb)
+			case "bvsub":
+				return lit(a.W(), va-vb)
+			case "bvand":
+				return lit(a.W(), va&vb)
+			case "bvor":
+				return lit(a.W(), va|vb)
+			case "bvxor":
+				return lit(a.W(), va^vb)
+			}
+		}
+		if va == 0 && (op == "bvadd" || op == "bvor" || op == "bvxor") {
+			return b
+		}
+	}
+	if vb, ok := constVal(b); ok && vb == 0 && (op == "bvadd" || op == "bvsub" || op == "bvor" || op == "bvxor") {
+		return a
+	}
 	return app(op, a.Sort, a, b)
 }
 
 func bvcmp(op string, a, b T) T {
 	if a.Sort != b.Sort {
 		panic(fmt.Sprintf("bvcmp %s: sort mismatch %s:%s vs %s:%s", op, a.S, a.Sort, b.S, b.Sort))
+	}
+	if va, ok := constVal(a); ok && a.W() <= 64 {
+		if vb, ok2 := constVal(b); ok2 {
+			w := uint(a.W())
+			sx := func(v uint64) int64 {
+				if w < 64 && v&(1<<(w-1)) != 0 {
+					return int64(v | (^uint64(0) << w))
+				}
+				return int64(v)
+			}
+			var r bool
+			known := true
+			switch op {
+			case "bvult":
+				r = va < vb
+			case "bvule":
+				r = va <= vb
+			case "bvugt":
+				r = va > vb
+			case "bvuge":
+				r = va >= vb
+			case "bvslt":
+				r = sx(va) < sx(vb)
+			case "bvsle":
+				r = sx(va) <= sx(vb)
+			case "bvsgt":
+				r = sx(va) > sx(vb)
+			case "bvsge":
+				r = sx(va) >= sx(vb)
+			default:
+				known = false
+			}
+			if known {
+				if r {
+					return tTrue
+				}
+				return tFalse
+			}
+		}
 	}
 	return app(op, BoolSort, a, b)
 }
